@@ -13,9 +13,72 @@ class TranslateError(Exception):
         self.where = where
 
 
+_LOG_LEVELS = {"debug", "info", "warning", "warn", "error", "exception", "critical", "log"}
+
+
+def _pure_arg(e: ast.AST) -> bool:
+    """an argument of a logging call that cannot have a side effect: constants, names, attributes, subscripts, f-strings
+    and %-formatting of those, and the calls str()/repr()/len()/type() of those"""
+    if isinstance(e, (ast.Constant, ast.Name)):
+        return True
+    if isinstance(e, ast.Attribute):
+        return _pure_arg(e.value)
+    if isinstance(e, ast.Subscript):
+        return _pure_arg(e.value) and _pure_arg(e.slice)
+    if isinstance(e, ast.JoinedStr):
+        return all(_pure_arg(v) for v in e.values)
+    if isinstance(e, ast.FormattedValue):
+        return _pure_arg(e.value) and (e.format_spec is None or _pure_arg(e.format_spec))
+    if isinstance(e, (ast.Tuple, ast.List)):
+        return all(_pure_arg(v) for v in e.elts)
+    if isinstance(e, ast.BinOp) and isinstance(e.op, (ast.Mod, ast.Add)):
+        return _pure_arg(e.left) and _pure_arg(e.right)
+    if isinstance(e, ast.Call) and isinstance(e.func, ast.Name) and e.func.id in ("str", "repr", "len", "type") and not e.keywords:
+        return all(_pure_arg(a) for a in e.args)
+    return False
+
+
+def is_observer(st: ast.stmt) -> bool:
+    """statements that cannot change what the translated code computes: docstrings / bare string constants, `pass`
+    next to other statements, and logger.<level>(...) calls whose arguments are side-effect free"""
+    if isinstance(st, ast.Expr) and isinstance(st.value, ast.Constant) and isinstance(st.value.value, str):
+        return True
+    if isinstance(st, ast.Expr) and isinstance(st.value, ast.Call):
+        f = st.value.func
+        if (isinstance(f, ast.Attribute) and f.attr in _LOG_LEVELS and isinstance(f.value, ast.Name) and f.value.id in ("logger", "logging")
+                and all(_pure_arg(a) for a in st.value.args) and all(_pure_arg(k.value) for k in st.value.keywords)):
+            return True
+    return False
+
+
+class _Strip(ast.NodeTransformer):
+    def _body(self, body):
+        out = [s for s in body if not is_observer(s)]
+        if len(out) > 1:
+            out = [s for s in out if not isinstance(s, ast.Pass)] or [ast.Pass()]
+        return out or [ast.Pass()]
+
+    def generic_visit(self, node):
+        super().generic_visit(node)
+        for field in ("body", "orelse", "finalbody"):
+            b = getattr(node, field, None)
+            if isinstance(b, list) and b and isinstance(b[0], ast.stmt):
+                nb = [s for s in b if not is_observer(s)]
+                if field == "body":
+                    nb = self._body(b)
+                setattr(node, field, nb)
+        return node
+
+
+def normalise(tree: ast.AST) -> ast.AST:
+    """drop observer statements (see is_observer) everywhere, so that adding a log line or editing a docstring in a
+    translated function does not change the translation"""
+    return ast.fix_missing_locations(_Strip().visit(tree))
+
+
 def parse(relpath: str) -> ast.Module:
     path = os.path.join(REPO, relpath)
-    return ast.parse(open(path).read(), filename=path)
+    return normalise(ast.parse(open(path).read(), filename=path))
 
 
 def find_func(node: ast.AST, name: str, where: str = "") -> ast.FunctionDef:
